@@ -1,7 +1,7 @@
 """C11 - sync preserves everything it was not asked to change."""
 from vf.props import C09, deductive, sync_common as S
 
-KEYS = ["doctrans.ast_utils:RewriteAtQuery.generic_visit", "doctrans.ast_utils:find_in_ast", "doctrans.ast_utils:annotate_ancestry", "doctrans.emit:file", "doctrans.ast_utils:RewriteAtQuery.visit_FunctionDef"]
+KEYS = ["doctrans.ast_utils:RewriteAtQuery.generic_visit", "vf.contracts.laws:replace_at_location", "doctrans.ast_utils:find_in_ast", "doctrans.ast_utils:annotate_ancestry", "doctrans.emit:file", "doctrans.ast_utils:RewriteAtQuery.visit_FunctionDef"]
 
 
 def check(run, record_expected=False):
